@@ -102,6 +102,44 @@ theorem iter_first_pass {α : Type} (c : Cfg) (rf : Nat → Nat → α) (hnf : 0
   intro j _
   simp [Nat.add_comm 1 j]
 
+/-- `iter_frames`, CLOSED FORM (finite repeat count `r = K + 1`, no seeks): `r·nf + 1` consecutive
+    `next()` on a fresh iterator — cached or not, whatever `tell()` the image started with — yield
+    exactly `r` passes of the frames `0 … nf-1` in order (so the `j`-th yielded frame is frame
+    `j mod nf`), each rendered at the image's size with `tell()` = the frame's number and
+    `loop_no` counting `r, r-1, …, 1` pass by pass, and then `StopIteration` with `tell() = 0`
+    and `loop_no = 0`. -/
+theorem iter_frames_closed_form {α : Type} (c : Cfg) (rf : Nat → Nat → α) (hnf : 0 < c.nf) (K : Nat)
+    (hrep : c.rep = (K : Int) + 1) (seek0 size0 : Nat) :
+    run c rf (init seek0 size0) (List.replicate ((K + 1) * c.nf + 1) .next) =
+      (List.range (K + 1)).flatMap (fun p => passObs rf (((K + 1 - p : Nat)) : Int) size0 0 c.nf) ++
+        [(⟨.stop, 0, some 0⟩ : Obs α)] := by
+  rw [iter_refines_spec c rf hnf (by omega)]
+  -- the first pass starts the generator
+  have hfirst : (specStep c rf (specInit seek0 size0) .next).2 = (.frame (some (rf 0 size0)) : Ans α) ∧
+      (specStep (α := α) c rf (specInit seek0 size0) .next).1.seekPos = 0 ∧
+      InPass (specStep (α := α) c rf (specInit seek0 size0) .next).1 1 ((K : Int) + 1) size0 := by
+    simp [specStep, specInit, hnf, InPass, hrep]
+  obtain ⟨h1, h2⟩ := pass_from_step c rf hnf _ ((K : Int) + 1) size0 hfirst.1 hfirst.2.1 hfirst.2.2
+  have hsplit : (K + 1) * c.nf + 1 = c.nf + (K * c.nf + 1) := by
+    rw [Nat.add_mul]; omega
+  rw [hsplit, ← List.replicate_append_replicate, specRun_append, h1, spec_passes c rf hnf K _ size0 h2]
+  rw [List.range_succ_eq_map, List.flatMap_cons, List.flatMap_map, List.append_assoc]
+  have hlab : ((K : Int) + 1) = (((K + 1 - 0 : Nat)) : Int) := by simp
+  rw [hlab]
+  congr 2
+  simp only [Nat.succ_eq_add_one, Nat.add_sub_add_right]
+
+/-- the `j`-th observation of a pass is frame `a + j` -/
+theorem passObs_getElem {α : Type} (rf : Nat → Nat → α) (ℓ : Int) (z a m j : Nat) (h : j < m) :
+    (passObs rf ℓ z a m)[j]? = some ⟨.frame (some (rf (a + j) z)), a + j, some ℓ⟩ := by
+  simp [passObs, h]
+
+/-- non-vacuity of the closed form: 3 frames, `repeat = 2` -/
+example : (run ⟨3, 2, false⟩ (fun k s => (k, s)) (init 2 5) (List.replicate 7 .next)).map
+    (fun o => (match o.ans with | .frame (some (k, _)) => some k | _ => none, o.tell, o.loopNo)) =
+    [(some 0, 0, some 2), (some 1, 1, some 2), (some 2, 2, some 2),
+     (some 0, 0, some 1), (some 1, 1, some 1), (some 2, 2, some 1), (none, 0, some 0)] := by decide
+
 /-- the end of a pass: one pass less to go and frame 0 again, or — after the last pass —
     `StopIteration` with the image back at frame 0 and the iterator closed -/
 theorem iter_pass_end {α : Type} (c : Cfg) (rf : Nat → Nat → α) (sp : Sp)
@@ -355,26 +393,30 @@ theorem reachable_only_source (w : World) (h : Released w) (i : Nat) (hr : w.qui
   simp [h1, h2] at hr
   exact of_decide_eq_true hr
 
-/-- `draw_keeps_frame` (partial: the frames part `T` is a parameter): the `finally` of
-    `_display_animated` — `image_it.close(); self._close_image(img); self._seek_position =
-    prev_seek_pos` — runs to its end on every path out of the frame loop `T` (normal end, any
-    fault at any Pillow call) and leaves the image at the seek position saved on entry,
-    provided `T` does not overwrite the saved value (no action of the frame loop does).
-    FULL STATEMENT (not proved here, checked by the correspondence on every `res draw` case and
-    by the `example` below): `((drawAnimOp …).run f w).w.seekPos = w.seekPos` for all arguments. -/
-theorem draw_keeps_frame_partial (T : Prog) (hT : Neutral (fun w => w.savedSeek) T) (f : Option Nat) (w : World) :
-    ((Prog.tryFinally T (Prog.block [.act .iterClose, .act (.closeImage .img0), .act .restoreSeek])).run f w).w.seekPos
-      = w.savedSeek := by
-  have hci : ∀ (w : World) (o : Option Nat), (closeImageH w o).savedSeek = w.savedSeek := by
-    intro w o; unfold closeImageH; split; rfl; split <;> rfl
-  have hic : ∀ w : World, (Act.iterClose.apply w).savedSeek = w.savedSeek := by
-    intro w; simp only [Act.apply]; split; rfl; exact hci _ _
-  simp only [Prog.block, Prog.run, Act.call?]
-  show (Act.restoreSeek.apply _).seekPos = _
-  simp only [Act.apply] 
-  show (closeImageH (Act.iterClose.apply (T.run f w).w) _).savedSeek = _
-  rw [hci, hic]
-  exact hT f w
+/-- `draw_keeps_frame`: an animated `draw()` (`_renderer` → `_display_animated`, any style and
+    render path per frame, any number of frames, cached or not) leaves the image's seek position
+    exactly where it was — on normal completion, when size validation fails, when opening either
+    image fails, and when any Pillow call of any frame fails. -/
+theorem draw_keeps_frame (src : Src) (sizeOk needN nProp : Bool) (v : Variant) (frames : List RP)
+    (f : Option Nat) (w : World) :
+    ((drawAnimOp src sizeOk needN nProp v frames).run f w).w.seekPos = w.seekPos := by
+  rw [drawAnimOp_eq, renderer_outcome]
+  show (Act.restoreSize.apply _).seekPos = _
+  rw [seekPos_preserved .restoreSize rfl]
+  have hw1 : (Act.setSizeTemp.apply (Act.saveSize.apply w)).seekPos = w.seekPos := by
+    rw [seekPos_preserved .setSizeTemp rfl, seekPos_preserved .saveSize rfl]
+  cases sizeOk with
+  | true =>
+    simp only [if_true, Prog.run]
+    rw [drawBody_seek]; exact hw1
+  | false =>
+    simp only [Bool.false_eq_true, if_false, Prog.run]
+    exact hw1
+
+/-- the `finally` of `_display_animated` by itself: whatever program `T` stands in for the frame
+    loop, if it does not overwrite the saved value the seek position is restored on every path -/
+theorem draw_finally_restores (T : Prog) (hT : Neutral (fun w => w.savedSeek) T) (f : Option Nat) (w : World) :
+    ((Prog.tryFinally T drawFin).run f w).w.seekPos = w.savedSeek := drawTail_seek T hT f w
 
 /-- non-vacuity / instance: a 3-frame animated draw started at frame 2, the 2nd frame's resize
     failing — the image is at frame 2 afterwards, the opened files are closed or unreferenced -/
@@ -382,6 +424,75 @@ example : let o := (drawAnimOp .file true false false .kitty
       [⟨true, true, true, false, true, true⟩, ⟨true, true, true, false, false, true⟩,
        ⟨true, true, true, false, false, true⟩]).run (some 7) { seekPos := 2 }
     o.w.seekPos = 2 ∧ o.exc = some .renderError ∧ o.w.isClosed 0 = true ∧ o.w.held = none := by decide
+
+/-- `opened_closed`, a whole standalone iteration including its construction: if
+    `ImageIterator.__init__` fails (the `n_frames` probe, `Image.open`) nothing is bound to the
+    iterator; otherwise `opened_closed` applies.  For every source kind, style path, frame list,
+    ending and fault plan the iterator references no image afterwards. -/
+theorem opened_closed_iterOp (src : Src) (needN nProp : Bool) (v : Variant) (frames : List RP) (e : Ending)
+    (f : Option Nat) (w : World) (h : Released w) :
+    Released ((iterOp src needN nProp v frames e).run f w).w := by
+  rw [iterOp_eq]
+  have hb := iterNew_binds src needN nProp f w h
+  simp only [Prog.run] at hb ⊢
+  split
+  · rename_i x he
+    exact hb.2 (by rw [he]; simp)
+  · have := opened_closed src v frames e ((iterNew src needN nProp).run f w).f ((iterNew src needN nProp).run f w).w
+    simp only [Prog.run] at this
+    exact this
+
+/-- `opened_closed`, a whole animated `draw()`: whether size validation, either `Image.open`,
+    the `n_frames` probe or any Pillow call of any frame fails, or nothing does — afterwards the
+    iterator `_display_animated` made references no image (its `finally` closes what it was
+    given and the image `_renderer` opened; the image `ImageIterator.__init__` opened is
+    unreferenced as soon as the generator is replaced). -/
+theorem opened_closed_draw (src : Src) (sizeOk needN nProp : Bool) (v : Variant) (frames : List RP)
+    (f : Option Nat) (w : World) (h : Released w) :
+    Released ((drawAnimOp src sizeOk needN nProp v frames).run f w).w := by
+  rw [drawAnimOp_eq, renderer_outcome]
+  have hw1 : Released (Act.setSizeTemp.apply (Act.saveSize.apply w)) :=
+    released_of_πG _ _ (by rw [(πG_sizeActs _).2.1, (πG_sizeActs _).1]) h
+  refine released_of_πG _ _ (πG_sizeActs _).2.2 ?_
+  cases sizeOk with
+  | true =>
+    simp only [if_true, Prog.run]
+    exact drawBody_released src needN nProp v frames f _ hw1
+  | false =>
+    simp only [Bool.false_eq_true, if_false, Prog.run]
+    exact hw1
+
+/-- … and a format / still draw / `n_frames` never involves the iterator at all -/
+theorem opened_closed_fmt (src : Src) (closed sizeOk : Bool) (v : Variant) (p : RP) (f : Option Nat) (w : World)
+    (h : Released w) : Released ((fmtOp src closed sizeOk v p).run f w).w := by
+  simp only [fmtOp]
+  rw [renderer_outcome]
+  have hw1 : Released (Act.setSizeTemp.apply (Act.saveSize.apply w)) :=
+    released_of_πG _ _ (by rw [(πG_sizeActs _).2.1, (πG_sizeActs _).1]) h
+  refine released_of_πG _ _ (πG_sizeActs _).2.2 ?_
+  have hbody : Neutral πG (Prog.seq (if sizeOk then Prog.done else Prog.raise .sizeError)
+      (Prog.seq (getImage src closed .img) (renderImage v p))) := by
+    refine neutral_seq _ _ _ ?_ (neutral_seq _ _ _ (neutral_G_of_genFree _ (getImage_genFree src closed .img 0 rfl))
+      (neutral_G_of_genFree _ (renderImage_genFree v p)))
+    split
+    · exact neutral_done _
+    · exact neutral_raise _ _
+  exact released_of_πG _ _ (hbody f _) hw1
+
+/-- `explicit_close`: a fault-free `format()` / `str()` / still `draw()` — file- or PIL-sourced,
+    size check passing or failing, every style and branch (block, kitty, iterm2 WHOLE / LINES with
+    any number of lines / native animation from file or by save / read-from-file) and every
+    data-dependent path through `_get_render_data` — closes, by an explicit `close()`/`__exit__`
+    and not through the garbage collector, every image it opened from a path and every file it
+    opened.  (What is left to the collector on these paths are memory-only images: the
+    composite background, the alpha channel, the RGB copy made for `getdata`.)
+    Not covered by a theorem: the same discipline for iterators and animated draws, where two
+    images are by design only ever collected (the image of a never-started iterator, and the one
+    `ImageIterator.__init__` opens inside `_display_animated`), and fault paths, where the image
+    in hand is left to the collector unless the failing call is `convert`/`resize`. -/
+theorem explicit_close (src : Src) (sizeOk : Bool) (v : Variant) (p : RP) (hf : p.frame = false) :
+    ((fmtOp src false sizeOk v p).run none (initW src)).w.openedAllClosed = true :=
+  explicit_close_all src sizeOk v p hf
 
 /-- non-vacuity of `convert_resize_img`'s clean-up: when the conversion of a freshly opened file
     fails (fault at the 2nd Pillow call), the opened image has been closed explicitly and the
